@@ -388,6 +388,7 @@ def run(ck):
                    'subclass, mapping of exception messages to check stages, two-field construction of zero overlap']
 
     extra_streams(ck)
+    tiny_correction_stream(ck)
 
 
 def extra_streams(ck):
@@ -475,3 +476,56 @@ def extra_streams(ck):
                           'status': [c.meta.get('fit_info', {}).get('status') for c in cors],
                           'predicate': 'align_wcs raises for an invalid sigma and no input WCS has been modified',
                           'spec': spec})
+
+
+def tiny_correction_stream(ck):
+    """a fitted correction within 1e-5 of the identity is a correction like any other: every member of the group gets
+    exactly one set_correction call and moves by the requested amount (WCSGroupCatalog.apply_affine_to_wcs, the step
+    align_to_ref performs for a SUCCESS)."""
+    import gen_align as GA
+    from astropy.table import Table
+    from tweakwcs.wcsimage import WCSImageCatalog, WCSGroupCatalog
+    T = A._tw()
+    rng = ck.rng
+    for t in range(ck.n(12, 120)):
+        nmem = 1 + t % 3
+        ims, cors = [], []
+        for k in range(nmem):
+            c = T['Counting'](GA.mkwcs(crval=(82.0 + 0.002 * k, 12.0 - 0.001 * k), rot=17.0 * k + t),
+                              meta={'name': 'm%d' % k})
+            cors.append(c)
+            ims.append(WCSImageCatalog(Table([[10.0, 900.0, 400.0], [20.0, 100.0, 950.0]], names=('x', 'y')), c, name='m%d' % k))
+        grp = WCSGroupCatalog(ims, name='grp')
+        tp = cors[0].copy()
+        j = rng.choice([-8, -5, 3, 6, 8])
+        kind = ['pure scale', 'tiny shift only', 'tiny general'][t % 3]
+        if kind == 'pure scale':
+            M, s = [[1.0 + j * 2.0 ** -20, 0.0], [0.0, 1.0 + j * 2.0 ** -20]], [0.0, 0.0]
+        elif kind == 'tiny shift only':
+            M, s = [[1.0, 0.0], [0.0, 1.0]], [j * 2.0 ** -30, -j * 2.0 ** -31]
+        else:
+            M, s = [[1.0 + j * 2.0 ** -20, 2.0 ** -22], [-2.0 ** -21, 1.0 - j * 2.0 ** -21]], [2.0 ** -30, 0.0]
+        before = [A.sky(c) for c in cors]
+        x = np.array([0.0, 1023.0, 512.0])
+        y = np.array([0.0, 0.0, 1023.0])
+        exp = []
+        for c in cors:
+            px, py = tp.world_to_tanp(*c.det_to_world(x, y))
+            q_ = np.dot(np.array(M), np.array([px, py])) + np.array(s)[:, None]
+            exp.append(tp.tanp_to_world(q_[0], q_[1]))
+        ck.search_evaluations += 1
+        ck.count('stream', 'tiny correction')
+        grp.apply_affine_to_wcs(tp, np.array(M), np.array(s))
+        ck.case(('tiny-correction', t), True)
+        calls = [c.ncorr for c in cors]
+        err = 0.0
+        for c, (era, edec) in zip(cors, exp):
+            ra, dec = c.det_to_world(x, y)
+            err = max(err, float(np.max(np.hypot((np.asarray(ra) - era) * np.cos(np.deg2rad(12.0)), np.asarray(dec) - edec))) * 3600.0)
+        want = float(max(abs(j) * 2.0 ** -20 * 1023 * 1.5 * 0.036, 1e-9)) if kind != 'tiny shift only' else 0.0
+        if calls != [1] * nmem or (kind != 'tiny shift only' and not err <= 0.02 * want + 1e-7):
+            ck.violation({'kind': 'correction close to the identity not applied exactly once to every member',
+                          'matrix': M, 'shift': s, 'members': nmem, 'set_correction_calls': calls,
+                          'largest distance (arcsec) between the corrected and the requested corner positions': err,
+                          'size of the requested displacement at the corners (arcsec), about': want,
+                          'call': 'WCSGroupCatalog(members).apply_affine_to_wcs(ref_tpwcs, matrix, shift)'})
